@@ -53,7 +53,7 @@ func c07run(cs c07case) (sig, detail string) {
 		faultBefore := "no fault before"
 		// roundsSinceMove[g]: refresh rounds since group g left m0 (-1 = never moved). While m0 is down the
 		// proxy cannot be redirected by it, so it can only learn the new owner from a refresh: errors for a
-		// moved group are tolerated until two refresh rounds have passed (the first may pick the dead seed).
+		// moved group are tolerated until a periodic refresh (with one retry pause) has completed.
 		roundsSinceMove := map[int]int{0: -1, 1: -1}
 		for i, op := range cs.Ops {
 			switch c07ops[op] {
@@ -89,14 +89,15 @@ func c07run(cs c07case) (sig, detail string) {
 				if redirectSeen {
 					rounds++
 				}
-				for g, r := range roundsSinceMove {
-					if r >= 0 {
-						roundsSinceMove[g] = r + 1
-					}
-				}
+				// (a pause alone refreshes nothing when no redirection triggered a refresh, so it does not
+				// shorten the window in which errors for a group that left a dead node are tolerated)
 			case "periodic-refresh":
+				// first let a pending minimum-rate pause end (the 2-minute timer is only armed after it), then
+				// let the periodic timer fire, then give a failed attempt (dead seed host) one retry
+				s.RefreshRound()
 				sched.AdvanceTime(int64(slotsRefFreq) + 1)
 				sched.WaitQuiescent()
+				s.RefreshRound()
 				s.RefreshRound()
 				if redirectSeen {
 					rounds++
